@@ -23,7 +23,17 @@ NAN = z3.Real("NaN")
 
 
 def is_nan(x):
+    if isinstance(x, (SArr, np.ndarray, list, tuple)):
+        return False                      # an array is not the NaN scalar
     return mk(lift(x) == NAN)
+
+
+def is_array(x):
+    return isinstance(x, (SArr, np.ndarray))
+
+
+is_array.__pyvc_native__ = True
+is_nan.__pyvc_native__ = True
 
 
 def _qrange(q, n):
